@@ -21,10 +21,75 @@ impl Timer for Clock {
     }
 }
 
+#[derive(Clone, Debug)]
+pub enum RecEv {
+    Set(u64),
+    DeleteOk(u64),
+    Evicted(Vec<u8>, u64),
+    Len(usize),
+}
+
+/// a recording `Cache` between RandomPolicy and MemoryStore: what the policy asked of the inner store
+pub struct Recorder {
+    pub inner: Arc<MemoryStore>,
+    pub log: std::sync::Mutex<Vec<RecEv>>,
+}
+
+impl memcrs::cache::cache::impl_details::CacheImplDetails for Recorder {
+    fn get_by_key(&self, key: &KeyType) -> memcrs::cache::error::Result<Record> {
+        self.inner.get_by_key(key)
+    }
+    fn check_if_expired(&self, key: &KeyType, record: &Record) -> bool {
+        self.inner.check_if_expired(key, record)
+    }
+}
+
+impl Cache for Recorder {
+    fn get(&self, key: &KeyType) -> memcrs::cache::error::Result<Record> {
+        self.inner.get(key)
+    }
+    fn set(&self, key: KeyType, record: Record) -> memcrs::cache::error::Result<memcrs::cache::cache::SetStatus> {
+        self.log.lock().unwrap().push(RecEv::Set(record.len() as u64));
+        self.inner.set(key, record)
+    }
+    fn delete(&self, key: KeyType, header: memcrs::cache::cache::CacheMetaData) -> memcrs::cache::error::Result<Record> {
+        let r = self.inner.delete(key, header);
+        if let Ok(rec) = &r {
+            self.log.lock().unwrap().push(RecEv::DeleteOk(rec.len() as u64));
+        }
+        r
+    }
+    fn flush(&self, header: memcrs::cache::cache::CacheMetaData) {
+        self.inner.flush(header)
+    }
+    fn len(&self) -> usize {
+        let n = self.inner.len();
+        self.log.lock().unwrap().push(RecEv::Len(n));
+        n
+    }
+    fn is_empty(&self) -> bool {
+        self.inner.is_empty()
+    }
+    fn as_read_only(&self) -> Box<dyn memcrs::cache::cache::CacheReadOnlyView> {
+        self.inner.as_read_only()
+    }
+    fn remove_if(&self, f: &mut memcrs::cache::cache::CachePredicate) -> memcrs::cache::cache::RemoveIfResult {
+        let r = self.inner.remove_if(f);
+        for (k, rec) in r.iter().flatten() {
+            self.log.lock().unwrap().push(RecEv::Evicted(k.to_vec(), rec.len() as u64));
+        }
+        r
+    }
+    fn remove(&self, key: &KeyType) -> Option<(KeyType, Record)> {
+        self.inner.remove(key)
+    }
+}
+
 pub struct Sut {
     pub clock: Arc<Clock>,
     pub inner: Arc<MemoryStore>,
     pub policy: Option<Arc<RandomPolicy>>,
+    pub recorder: Option<Arc<Recorder>>,
     pub memc: Arc<MemcStore>,
     pub handler: BinaryHandler,
     pub limit: u32,
@@ -62,12 +127,13 @@ impl Sut {
     pub fn new(limit: u32, policy_limit: Option<u64>) -> Sut {
         let clock = Arc::new(Clock(AtomicU64::new(0)));
         let inner = Arc::new(MemoryStore::new(clock.clone()));
-        let (store, policy): (Arc<dyn Cache + Send + Sync>, Option<Arc<RandomPolicy>>) = match policy_limit {
+        let (store, policy, recorder): (Arc<dyn Cache + Send + Sync>, Option<Arc<RandomPolicy>>, Option<Arc<Recorder>>) = match policy_limit {
             Some(l) => {
-                let p = Arc::new(RandomPolicy::new(inner.clone(), l));
-                (p.clone(), Some(p))
+                let rec = Arc::new(Recorder { inner: inner.clone(), log: std::sync::Mutex::new(vec![]) });
+                let p = Arc::new(RandomPolicy::new(rec.clone(), l));
+                (p.clone(), Some(p), Some(rec))
             }
-            None => (inner.clone(), None),
+            None => (inner.clone(), None, None),
         };
         let store_dyn = store.clone();
         let memc = Arc::new(MemcStore::new(store));
@@ -75,6 +141,7 @@ impl Sut {
             clock,
             inner,
             policy,
+            recorder,
             handler: BinaryHandler::new(memc.clone()),
             memc,
             limit,
@@ -275,6 +342,17 @@ impl Sut {
             .map(|(k, r)| format!("k={} v={} f={} c={} ts={} ttl={}", hexd(k), hexd(&r.value), r.flags, r.cas, r.ts, r.ttl))
             .collect();
         format!("dump {}", parts.join(";"))
+    }
+
+    pub fn usage(&self) -> u64 {
+        self.policy.as_ref().map(|p| p.verif_usage()).unwrap_or(0)
+    }
+
+    pub fn take_log(&self) -> Vec<RecEv> {
+        match &self.recorder {
+            Some(r) => std::mem::take(&mut *r.log.lock().unwrap()),
+            None => vec![],
+        }
     }
 
     pub fn stored_bytes(&self) -> u64 {
